@@ -45,14 +45,21 @@ from ..ast.fpyast import (
     AnyOf,
     Assign,
     BoolVal,
+    Compare,
     Expr,
     ForStmt,
     FuncDef,
+    Id,
+    If1Stmt,
     IfExpr,
     ListComp,
+    NamedId,
+    NaryOp,
+    Not,
     Or,
     Stmt,
     StmtBlock,
+    TupleBinding,
     Var,
     WhileStmt,
 )
@@ -82,7 +89,10 @@ class _ReduceFusionInstance(DefaultTransformVisitor):
 
     def __init__(self, func: FuncDef, def_use: DefineUseAnalysis):
         self.func = func
+        self.def_use = def_use
         self.gensym = Gensym(reserved=def_use.names())
+        # reads of a comprehension target that had to be renamed
+        self._renamed: dict[Var, NamedId] = {}
 
     def apply(self) -> FuncDef:
         return self._visit_function(self.func, None)
@@ -121,7 +131,7 @@ class _ReduceFusionInstance(DefaultTransformVisitor):
         # and a fusable reduction inside it hoists to this block too.  The
         # element sees the loop target, so it gets no statement slot.
         iterable = self._visit_expr(comp.iterables[0], ctx)
-        target = self._visit_binding(comp.targets[0], ctx)
+        target = self._loop_target(comp.targets[0], comp)
         elt_expr = self._visit_expr(comp.elt, None)
 
         op = Or if is_any else And
@@ -136,6 +146,31 @@ class _ReduceFusionInstance(DefaultTransformVisitor):
         ctx.stmts.append(Assign(acc, None, BoolVal(not is_any, e.loc), e.loc))
         ctx.stmts.append(ForStmt(target, iterable, body, e.loc))
         return Var(acc, e.loc)
+
+    def _loop_target(self, binding: Id | TupleBinding, comp: ListComp) -> Id | TupleBinding:
+        """The comprehension's target as the target of the loop.
+
+        A comprehension binds its target for itself only; a ``for`` statement
+        binds it in the enclosing scope.  A target that shares its name with
+        anything else in the function is renamed, so that the loop leaves the
+        other variable alone."""
+        match binding:
+            case NamedId():
+                if sum(1 for d in self.def_use.defs if d.name == binding) <= 1:
+                    return binding
+                fresh = self.gensym.refresh(binding)
+                d = self.def_use.find_def_from_site(binding, comp)
+                for use in self.def_use.uses[d]:
+                    if isinstance(use, Var):
+                        self._renamed[use] = fresh
+                return fresh
+            case TupleBinding():
+                return TupleBinding([self._loop_target(b, comp) for b in binding], binding.loc)
+            case _:
+                return binding
+
+    def _visit_var(self, e: Var, ctx: Any) -> Var:
+        return Var(self._renamed.get(e, e.name), e.loc)
 
     # ------------------------------------------------------------------
     # Positions with no statement-level slot: suppress fusion.
@@ -157,6 +192,48 @@ class _ReduceFusionInstance(DefaultTransformVisitor):
         ift = self._visit_expr(e.ift, None)
         iff = self._visit_expr(e.iff, None)
         return IfExpr(cond, ift, iff, e.loc)
+
+    def _visit_naryop(self, e: NaryOp, ctx: Any):
+        if isinstance(e, And | Or) and isinstance(ctx, _Ctx):
+            return self._visit_short_circuit(e, ctx)
+        return super()._visit_naryop(e, ctx)
+
+    def _visit_short_circuit(self, e: 'And | Or', ctx: _Ctx) -> Expr:
+        """Only the first operand of ``and`` / ``or`` is always evaluated: a
+        loop fused out of a later operand runs under the operands before it,
+
+            t = <operands so far>; acc = <seed>
+            if t: <loop>            # `if not t:` for `or`
+            ... t and acc ...
+        """
+        args = [self._visit_expr(e.args[0], ctx)]
+        for arg in e.args[1:]:
+            hoisted = _Ctx.default()
+            new_arg = self._visit_expr(arg, hoisted)
+            if hoisted.stmts:
+                t = self.gensym.fresh('t')
+                so_far = args[0] if len(args) == 1 else type(e)(args, e.loc)
+                ctx.stmts.append(Assign(t, None, so_far, e.loc))
+                args = [Var(t, e.loc)]
+                # the seeds are constants: bound on both paths
+                seeds = [s for s in hoisted.stmts if isinstance(s, Assign) and isinstance(s.expr, BoolVal)]
+                loops = [s for s in hoisted.stmts if not any(s is seed for seed in seeds)]
+                guard: Expr = Var(t, e.loc) if isinstance(e, And) else Not(Var(t, e.loc), e.loc)
+                ctx.stmts.extend(seeds)
+                # a nested `and` / `or` binds its own `t` under this guard;
+                # it is read only where it was bound, but has to be bound on every path
+                ctx.stmts.extend(
+                    Assign(s.target, None, BoolVal(False, e.loc), e.loc)
+                    for s in loops if isinstance(s, Assign) and isinstance(s.target, NamedId)
+                )
+                ctx.stmts.append(If1Stmt(guard, StmtBlock(loops), e.loc))
+            args.append(new_arg)
+        return type(e)(args, e.loc)
+
+    def _visit_compare(self, e: Compare, ctx: Any):
+        # a chain stops at its first false link
+        args = [self._visit_expr(arg, ctx if i < 2 else None) for i, arg in enumerate(e.args)]
+        return Compare(e.ops, args, e.loc)
 
     def _visit_while(self, stmt: WhileStmt, ctx: Any):
         # The condition is evaluated before every iteration; a loop hoisted
